@@ -550,3 +550,60 @@ def implicit_timezone_in_comparisons(hi: int, oi: int) -> bool:
     diff = T_ITZ_SUB.evaluate(XPathContext(item=1, variables=v, timezone=tz))
     diff = diff[0] if isinstance(diff, list) else diff
     return diff.seconds == (x - y) * 60 and d.tzinfo is None and u.tzinfo is None and str(d) == '2000-01-01T%02d:00:00' % h
+
+
+# --- added after the round-4 baseline reports: comparisons raise XPath errors only; untyped NaN / INF against a decimal are doubles -----------
+
+from elementpath.datatypes import UntypedAtomic as _UA7, QName as _QN7  # noqa: E402
+_GOPS = {'eq': '=', 'ne': '!=', 'lt': '<', 'le': '<=', 'gt': '>', 'ge': '>='}
+T_GEN7 = {k: (P31.parse('$a %s $b' % g), P31.parse('$b %s $a' % g), P31.parse('$a %s $b' % k)) for k, g in _GOPS.items()}
+UNTYPED7 = ('nan', 'Infinity', 'x', '', 'x:a', '12:00:00', 'NaN', 'INF', '-INF', '1.50', ' 2 ')
+_PAIRS7 = (tuple((_UA7(t), Decimal('1.5')) for t in UNTYPED7), tuple((_UA7(t), _QN7('', 'a')) for t in UNTYPED7), ((10 ** 400, 1.0),) * 11)
+_U_AS_DOUBLE = {'NaN': float('nan'), 'INF': float('inf'), '-INF': float('-inf'), '1.50': 1.5, ' 2 ': 2.0}
+
+
+_CMPERR = '''
+@ob(budget={budget}, kind={okind!r}, family='comparison-errors', bound={bound!r},
+    funcs=['elementpath/datatypes/untyped.py:UntypedAtomic._operator', O2 + ':evaluate__value_comparison_operators', 'elementpath/xpath1/_xpath1_operators.py:evaluate__comparison_operators'])
+def comparison_errors_are_xpath_errors_{name}(ui: int) -> bool:
+    """
+    pre: {lo} <= ui <= {top}
+    post: _
+    """
+    return _cmp_errors(ui, {kind})
+'''
+
+
+def _cmp_errors(ui, kind):
+    text = UNTYPED7[[k for k in range(11) if k == ui][0]]
+    a, b = _PAIRS7[kind][[k for k in range(11) if k == ui][0]]
+    for k, f in OPS.items():
+        for j, tok in enumerate(T_GEN7[k]):
+            try:
+                r = _one(tok.evaluate(XPathContext(item=1, variables={'a': a, 'b': b})))
+            except ElementPathError as e:
+                if kind == 0 and j < 2 and text in _U_AS_DOUBLE:
+                    return False
+                if kind == 0 and j < 2 and err_code(e) != 'FORG0001':
+                    return False
+                continue
+            if not isinstance(r, bool):
+                return False
+            if kind == 0 and j < 2:
+                if text not in _U_AS_DOUBLE:
+                    return False
+                x = _U_AS_DOUBLE[text]
+                if r is not (f(x, 1.5) if j == 0 else f(1.5, x)):
+                    return False
+    return True
+
+
+for _kind, _name, _lo, _top, _what in ((0, 'decimal_invalid', 0, 5, 'untyped value from 6 texts that are not xs:double values (nan, Infinity, x, empty, x:a, 12:00:00; chosen by the solver) '
+                                         'against xs:decimal 1.5: FORG0001 (the error path does not exhaust under CrossHair: bug-hunting)'),
+                                        (0, 'decimal_double', 6, 10, 'untyped value from 5 texts that are xs:double values (NaN, INF, -INF, 1.50, " 2 "; chosen by the solver) against xs:decimal 1.5: '
+                                         'compared as doubles (NaN unequal to everything, INF above, -INF below)'),
+                                        (1, 'qname', 0, 10, 'untyped value from the same 11 texts (chosen by the solver) against xs:QName a'),
+                                        (2, 'huge', 0, 0, 'the integer 10^400 against xs:double 1e0')):
+    define(_CMPERR.format(name=_name, lo=_lo, top=_top, kind=_kind, budget=120 if _name == 'decimal_invalid' else 300,
+                          okind='hunt' if _name == 'decimal_invalid' else 'main', bound=_what + ': the six general comparisons in both operand orders and the six value comparisons return a boolean or raise '
+                          'an ElementPathError, never another exception'), globals())
